@@ -462,6 +462,9 @@ class Interp:
     # ==================================================================================
     # names
     def load_name(self, name, fr: Frame):
+        log = getattr(fr, "access_log", None)
+        if log is not None and name not in log and (name in fr.locals or (fr.local_names is not None and name in fr.local_names)):
+            log[name] = "r"
         if name in fr.locals:
             return fr.locals[name]
         if fr.local_names is not None and name in fr.local_names and not getattr(fr, "is_comp", False):
@@ -490,6 +493,9 @@ class Interp:
             # walrus inside a comprehension binds in the enclosing function
             fr.parent.locals[name] = v
             return
+        log = getattr(fr, "access_log", None)
+        if log is not None and name not in log:
+            log[name] = "w"
         fr.locals[name] = v
 
     # ==================================================================================
@@ -721,14 +727,24 @@ def _b_enumerate(it, args, kw):
 
 def _b_range(it, args, kw):
     if any(isinstance(a, SInt) for a in args):
-        if len(args) != 1:
-            raise Unsupported("range(start, stop) with symbolic bounds")
-        n = zint(args[0])
-        ok, _ = ctx().valid(n >= 0)
+        c = ctx()
+        if len(args) == 1:
+            start, stop, step = z3.IntVal(0), zint(args[0]), 1
+        else:
+            start, stop = zint(args[0]), zint(args[1])
+            step = args[2] if len(args) == 3 else 1
+            if isinstance(step, SInt) or step not in (1, -1):
+                raise Unsupported("range with a step other than 1 / -1 and symbolic bounds")
+        n = z3.simplify(stop - start if step == 1 else start - stop)
+        ok, _ = c.valid(n >= 0)
         if not ok:
-            raise Unsupported("range of a possibly negative symbolic length")
-        j = z3.Int(f"jrange({z3.simplify(n)})")
-        return [Seg(("range", str(z3.simplify(n))), SInt(n), j, [SInt(j)])]
+            if not c.branch(n > 0):
+                return []
+        if z3.is_int_value(n):
+            return [SInt(z3.simplify(start + k * step)) if not z3.is_int_value(z3.simplify(start + k * step)) else z3.simplify(start + k * step).as_long()
+                    for k in range(n.as_long())]
+        j = z3.Int(f"jrange({z3.simplify(start)},{z3.simplify(stop)},{step})")
+        return [Seg(("range", str(z3.simplify(start)), str(z3.simplify(stop)), step), SInt(n), j, [mk_int(z3.simplify(start + j * step))])]
     return it.native(range, *args)
 
 
